@@ -778,6 +778,37 @@ func runC05(c *Ctx) {
 		r.Add(core.Obligation{Rule: "online", Key: "online makeOffline recomputes the MAC entry flag", Func: core.FuncName(mo), Pos: c.P.Pos(mo.Pos()), Status: st,
 			Basis: "MACEntry.Online = (some host in the list is online)", Detail: "makeOffline does not recompute MACEntry.Online as 'some host of the list is online': " + why})
 	}
+	// the MAC entry's flag goes down only through that recomputation: every other store to MACEntry.Online in the module
+	// is the constant true (a store of false elsewhere marks an entry offline whose other hosts are still online)
+	r.Rule("mac-online-stores", "MACEntry.Online is set to true, or recomputed over the host list in makeOffline - nothing else", 4)
+	kg = core.NewKeyGen()
+	for _, fn := range c.P.ModuleFunctions() {
+		core.EachInstr(fn, func(i ssa.Instruction) {
+			s, ok := i.(*ssa.Store)
+			if !ok {
+				return
+			}
+			fa, ok := s.Addr.(*ssa.FieldAddr)
+			if !ok || fieldOwner(fa) != "packet.MACEntry.Online" {
+				return
+			}
+			if al, isA := fa.X.(*ssa.Alloc); isA && al.Comment == "complit" {
+				return // a new entry's initial state
+			}
+			st, det := core.Proved, ""
+			v, isC := constBool(s.Val)
+			switch {
+			case isC && v:
+			case fn.Name() == "makeOffline" && !isC:
+			default:
+				st = core.Violated
+				det = core.FuncName(fn) + " stores " + norm(s.Val) + " in MACEntry.Online without looking at the entry's other hosts: a host of the same MAC that is still online is then online under an entry marked offline"
+			}
+			key := strings.TrimSuffix(kg.Key("mac-online-stores "+core.FuncName(fn)), "#0")
+			r.Add(core.Obligation{Rule: "mac-online-stores", Key: key, Func: core.FuncName(fn), Pos: c.P.Pos(core.PosOf(i)), Status: st,
+				Basis: "constant true, or the recomputed flag in makeOffline", Detail: det})
+		})
+	}
 }
 
 // ---------------- C06 ----------------
